@@ -391,6 +391,63 @@ def resolved_sites(fx, pred, unit=None):
     return out
 
 
+def run_alloc_layout_mir(res, fx):
+    """ALLOC-LAYOUT/MIR: in runtime::Memory, the layout operand of every resolved alloc / alloc_zeroed call is (through moves and
+    Result::unwrap/expect) the result of core::alloc::Layout::array::<T>, never of from_size_align / from_size_align_unchecked."""
+    res.rule("ALLOC-LAYOUT/MIR", "on MIR, the layout handed to every tape allocation and deallocation derives from Layout::array::<C>(n) "
+             "(overflow-checked) through unwrap/expect and moves only", floor=3, what="layout operands")
+    n = 0
+    for f in fx.functions("lib"):
+        fname = strip_generics(f["name"])
+        if "runtime::Memory" not in fname or "::tests::" in fname:
+            continue
+        # definitions: local -> producing (kind, detail)
+        defs = {}
+        for b in f["blocks"]:
+            for st in b["stmts"]:
+                if st["k"] == "assign" and not st["place"]["proj"]:
+                    defs.setdefault(st["place"]["local"], []).append(("rv", st["rv"]))
+            t = b["term"]
+            if t["k"] == "call":
+                for l_ in place_locals(t["dest"]):
+                    defs.setdefault(l_, []).append(("call", t))
+        for bi, t in calls(f):
+            nm = strip_generics(callee(t)[1] or callee(t)[0] or "")
+            base = nm.split("::")[-1]
+            if not (nm.startswith("alloc::alloc::") or nm.startswith("std::alloc::")) or base not in ("alloc", "alloc_zeroed", "dealloc", "realloc"):
+                continue
+            n += 1
+            arg = t["args"][0] if base in ("alloc", "alloc_zeroed") else t["args"][1]
+            path, ln = file_line(t["line"])
+            key = f"{path}|{fname}|{base}"
+            # backward closure
+            seen, work, origin, bad = set(), list(operand_locals(arg)), [], []
+            while work:
+                l_ = work.pop()
+                if l_ in seen:
+                    continue
+                seen.add(l_)
+                for kind, d in defs.get(l_, []):
+                    if kind == "rv":
+                        work.extend(rvalue_locals(d))
+                    else:
+                        cn = strip_generics(callee(d)[1] or callee(d)[0] or "")
+                        if cn.endswith("Layout::array"):
+                            origin.append(cn)
+                        elif cn.endswith("::unwrap") or cn.endswith("::expect") or cn.endswith("::unwrap_unchecked") and False:
+                            for a in d["args"]:
+                                work.extend(operand_locals(a))
+                        elif "Layout::" in cn:
+                            bad.append(cn)
+                        else:
+                            bad.append(cn)
+            ok = bool(origin) and not bad
+            res.check(ok, "ALLOC-LAYOUT/MIR", key, f"{path}:{ln} ({fname})",
+                      f"the layout of {base} at {path}:{ln} comes from {sorted(set(bad)) or 'an unknown source'}, not from Layout::array::<C>(n).unwrap(): its size computation is not overflow-checked")
+    if n < 3:
+        res.bad("ALLOC-LAYOUT/MIR", "count", "-", f"only {n} tape allocation/deallocation sites found in runtime.rs (expected 3)")
+
+
 INSPECTORS = ("::is_none", "::is_some", "::is_ok", "::is_err", "::branch", "::eq", "::ne", "::is_some_and", "::is_none_or", "::is_ok_and")
 
 
